@@ -4,6 +4,7 @@ import (
 	"fmt"
 	"go/token"
 	"go/types"
+	"sort"
 
 	"golang.org/x/tools/go/ssa"
 )
@@ -228,34 +229,186 @@ func closeOf(in ssa.Instruction) (ssa.Value, bool) {
 }
 
 // R4 (also used as C06-R5): every exit of the reader publishes, then closes.
-func c05R4(a *A, r *Roles, rule string) {
-	w := a.W
-	n := 0
-	for _, ret := range returnsOf(r.Reader) {
-		n++
-		key := fmt.Sprintf("exit@reader[ret#%d]", n)
-		// walk the dominator chain upwards from the return collecting send/close on errChan
-		var send *ssa.Send
-		var cl ssa.Instruction
-		for b := ret.Block(); b != nil; b = b.Idom() {
-			for i := len(b.Instrs) - 1; i >= 0; i-- {
-				in := b.Instrs[i]
-				if s, ok := in.(*ssa.Send); ok && loadsField(s.Chan, r.ConnErrChan) && send == nil {
-					send = s
-				}
-				if ch, ok := closeOf(in); ok && loadsField(ch, r.ConnErrChan) && cl == nil {
-					cl = in
+//
+// The reader's protocol is a three-state automaton over the effects on its two channels: S0 (nothing yet) --send reason-->
+// S1 --close(reason channel)--> S2. It is run as a forward dataflow over the reader's control-flow graph with sets of
+// states; calls to in-package functions apply the callee's own transfer function (computed the same way, bounded depth), so
+// the effects may sit in helpers. Every return of the reader must be reached in S2 only; an explicit close of the event
+// channel needs S1 or S2; a deferred close of the event channel must be registered in the entry block.
+type rdState uint8
+
+const (
+	rdS0 rdState = 1 << iota
+	rdS1
+	rdS2
+)
+
+type rdFlow struct {
+	a      *A
+	r      *Roles
+	rule   string
+	report bool
+	memo   map[*ssa.Function]map[rdState]rdState // callee transfer: single in-state -> set of out-states
+	active map[*ssa.Function]bool
+	nOrd   int
+}
+
+// step applies one instruction to a state set.
+func (fl *rdFlow) step(in ssa.Instruction, st rdState, depth int) rdState {
+	w := fl.a.W
+	switch x := in.(type) {
+	case *ssa.Send:
+		if !loadsField(x.Chan, fl.r.ConnErrChan) {
+			return st
+		}
+		if st&(rdS1|rdS2) != 0 && fl.report {
+			fl.a.viol(fl.rule, "exit@reader[second-publish]", w.posOf(in), "the reason channel can be sent to a second time (or after it was closed)")
+		}
+		if st&rdS0 != 0 {
+			return rdS1
+		}
+		return 0
+	case *ssa.Defer:
+		return st // runs at exit; checked separately
+	case *ssa.Go:
+		return st
+	}
+	if ch, ok := closeOf(in); ok {
+		switch {
+		case loadsField(ch, fl.r.ConnErrChan):
+			if st&(rdS0|rdS2) != 0 && fl.report {
+				fl.a.viol(fl.rule, "exit@reader[close-reason]", w.posOf(in), "the reason channel can be closed before the reason was sent (Error() then reports a nil reason) or closed twice")
+			}
+			if st&rdS1 != 0 {
+				return rdS2
+			}
+			return 0
+		case isBinlogEventChan(ch.Type()):
+			if fl.report {
+				fl.nOrd++
+				fl.a.check(st&rdS0 == 0, fl.rule, fmt.Sprintf("close-order@%s#%d", in.Parent().Name(), fl.nOrd), w.posOf(in), "event channel closed after the reason was published",
+					"the event channel is closed before the reader published its reason: the parser (and then Error()) can observe the end of the stream before the reason is available")
+			}
+			return st
+		}
+		return st
+	}
+	if c, ok := in.(*ssa.Call); ok {
+		cal := c.Common().StaticCallee()
+		if cal != nil && cal.Blocks != nil && cal.Pkg == w.Root && depth < 3 && !fl.active[cal] {
+			var out rdState
+			for _, one := range []rdState{rdS0, rdS1, rdS2} {
+				if st&one != 0 {
+					out |= fl.transfer(cal, one, depth+1)
 				}
 			}
-		}
-		ok := send != nil && cl != nil && instrDominates(send, cl)
-		a.check(ok, rule, key, w.posOf(ret), "publishes its reason, then closes the reason channel",
-			"an exit of the reader goroutine does not (send its reason and then) close the reason channel: Error() blocks forever or the reason is lost")
-		if send != nil {
-			a.check(provablyNonNilErr(send.X) || nonNilAt(send.X, send.Block()), rule, key+"[reason]", w.posOf(send), "published reason is non-nil", "the reader publishes a possibly-nil reason")
+			return out
 		}
 	}
-	a.atLeast(rule, "exit@reader", 1)
+	return st
+}
+
+// transfer: the set of states in which f can return when entered in state in.
+func (fl *rdFlow) transfer(f *ssa.Function, in rdState, depth int) rdState {
+	if !fl.report {
+		if m, ok := fl.memo[f]; ok {
+			if o, ok := m[in]; ok {
+				return o
+			}
+		}
+	}
+	fl.active[f] = true
+	defer delete(fl.active, f)
+	saved := fl.report
+	if depth > 0 {
+		fl.report = false
+	}
+	out := fl.run(f, in, depth, nil)
+	fl.report = saved
+	if fl.memo[f] == nil {
+		fl.memo[f] = map[rdState]rdState{}
+	}
+	fl.memo[f][in] = out
+	return out
+}
+
+// run is the forward dataflow; atRet, when given, receives the state set at each return.
+func (fl *rdFlow) run(f *ssa.Function, in rdState, depth int, atRet func(*ssa.Return, rdState)) rdState {
+	ins := map[*ssa.BasicBlock]rdState{f.Blocks[0]: in}
+	work := []*ssa.BasicBlock{f.Blocks[0]}
+	outs := map[*ssa.BasicBlock]rdState{}
+	rep := fl.report
+	fl.report = false
+	for len(work) > 0 {
+		b := work[0]
+		work = work[1:]
+		st := ins[b]
+		for _, i := range b.Instrs {
+			st = fl.step(i, st, depth)
+		}
+		if o, seen := outs[b]; seen && o == st {
+			continue
+		}
+		outs[b] = st
+		for _, s := range b.Succs {
+			if ins[s]|st != ins[s] {
+				ins[s] |= st
+				work = append(work, s)
+			} else if _, seen := outs[s]; !seen {
+				work = append(work, s)
+			}
+		}
+	}
+	fl.report = rep
+	// reporting pass over the fixed point, in block order
+	var exit rdState
+	for _, b := range f.Blocks {
+		st, reached := ins[b]
+		if !reached {
+			continue
+		}
+		for _, i := range b.Instrs {
+			if ret, ok := i.(*ssa.Return); ok {
+				exit |= st
+				if atRet != nil {
+					atRet(ret, st)
+				}
+			}
+			st = fl.step(i, st, depth)
+		}
+	}
+	return exit
+}
+
+func c05R4(a *A, r *Roles, rule string) {
+	w := a.W
+	fl := &rdFlow{a: a, r: r, rule: rule, report: true, memo: map[*ssa.Function]map[rdState]rdState{}, active: map[*ssa.Function]bool{r.Reader: true}}
+	n := 0
+	fl.run(r.Reader, rdS0, 0, func(ret *ssa.Return, st rdState) {
+		n++
+		key := fmt.Sprintf("exit@reader[ret#%d]", n)
+		a.check(st == rdS2, rule, key, w.posOf(ret), "publishes its reason, then closes the reason channel",
+			"an exit of the reader goroutine does not (send its reason and then) close the reason channel: Error() blocks forever or the reason is lost")
+	})
+	a.atLeast(rule, "exit@reader[ret#", 1)
+	// every published reason is non-nil (sends in the reader and in the functions it calls)
+	reach := reachableIn(w.Root, r.Reader)
+	m := 0
+	var sendFns []*ssa.Function
+	for f := range reach {
+		sendFns = append(sendFns, f)
+	}
+	sort.Slice(sendFns, func(i, j int) bool { return sendFns[i].Pos() < sendFns[j].Pos() })
+	for _, f := range sendFns {
+		instrs(f, func(in ssa.Instruction) {
+			s, ok := in.(*ssa.Send)
+			if !ok || !loadsField(s.Chan, r.ConnErrChan) {
+				return
+			}
+			m++
+			a.check(nonNilReason(s.X, s.Block(), f, reach, 0), rule, fmt.Sprintf("exit@reader[reason#%d]", m), w.posOf(s), "published reason is non-nil", "the reader publishes a possibly-nil reason")
+		})
+	}
 	// deferred close of the event channel in the entry block
 	okDefer := false
 	for _, in := range r.Reader.Blocks[0].Instrs {
@@ -275,8 +428,9 @@ func c05R4(a *A, r *Roles, rule string) {
 		}
 	}
 	a.check(okDefer, rule, "exit@reader[event-chan-close]", w.pos(r.Reader.Pos()), "close(eventChan) deferred at entry", "the event channel's close is not deferred at the reader's entry: the parser never sees the end of the stream")
-	// errChan closed nowhere else; event channel closed nowhere else
-	m := 0
+	// channels are closed only by the reader: in its body, its closures, or functions that only the reader's code calls
+	private := readerPrivate(w, r.Reader)
+	k := 0
 	for _, f := range w.srcFuncs(w.Root) {
 		instrs(f, func(in ssa.Instruction) {
 			ch, ok := closeOf(in)
@@ -286,24 +440,107 @@ func c05R4(a *A, r *Roles, rule string) {
 			if _, isCh := ch.Type().Underlying().(*types.Chan); !isCh {
 				return
 			}
-			m++
-			inReader := f == r.Reader || f.Parent() == r.Reader
-			a.check(inReader, rule, fmt.Sprintf("close-site@%s#%d", f.Name(), m), w.posOf(in), "closed by the reader", "a channel is closed outside the reader goroutine (double close or close-before-publish)")
-			if f == r.Reader && isBinlogEventChan(ch.Type()) {
-				// an explicit (non-deferred) close of the event channel must come after the reason was published
-				published := false
-				for b := in.Block(); b != nil; b = b.Idom() {
-					for _, i2 := range b.Instrs {
-						if s, ok := i2.(*ssa.Send); ok && loadsField(s.Chan, r.ConnErrChan) && instrDominates(s, in) {
-							published = true
-						}
-					}
-				}
-				a.check(published, rule, fmt.Sprintf("close-order@%s#%d", f.Name(), m), w.posOf(in), "event channel closed after the reason was published",
-					"the event channel is closed before the reader published its reason: the parser (and then Error()) can observe the end of the stream before the reason is available")
+			k++
+			a.check(private[f], rule, fmt.Sprintf("close-site@%s#%d", f.Name(), k), w.posOf(in), "closed by the reader", "a channel is closed outside the reader goroutine (double close or close-before-publish)")
+		})
+	}
+}
+
+// nonNilReason: v, sent as the reader's reason from block b of f, cannot be nil: by construction, by a dominating nil test,
+// or - when it is a parameter of a helper - at every call site of that helper in the reader's code.
+func nonNilReason(v ssa.Value, b *ssa.BasicBlock, f *ssa.Function, reach map[*ssa.Function]bool, depth int) bool {
+	if provablyNonNilErr(v) || nonNilAt(v, b) {
+		return true
+	}
+	p, ok := resolve(v).(*ssa.Parameter)
+	if !ok || depth > 2 {
+		return false
+	}
+	idx := -1
+	for i, q := range f.Params {
+		if q == p {
+			idx = i
+		}
+	}
+	if idx < 0 {
+		return false
+	}
+	sites := 0
+	good := true
+	for g := range reach {
+		instrs(g, func(in ssa.Instruction) {
+			ci, ok := in.(ssa.CallInstruction)
+			if !ok || ci.Common().StaticCallee() != f || ci.Common().IsInvoke() {
+				return
+			}
+			sites++
+			if idx >= len(ci.Common().Args) || !nonNilReason(ci.Common().Args[idx], in.Block(), g, reach, depth+1) {
+				good = false
 			}
 		})
 	}
+	return good && sites > 0
+}
+
+// readerPrivate: the reader, its closures, and the in-package functions whose every static call site is in such a function
+// and which are never used as a value.
+func readerPrivate(w *World, reader *ssa.Function) map[*ssa.Function]bool {
+	priv := map[*ssa.Function]bool{reader: true}
+	fns := w.srcFuncs(w.Root)
+	callers := map[*ssa.Function][]*ssa.Function{}
+	escaped := map[*ssa.Function]bool{}
+	for _, f := range fns {
+		instrs(f, func(in ssa.Instruction) {
+			if ci, ok := in.(ssa.CallInstruction); ok {
+				if cal := ci.Common().StaticCallee(); cal != nil && !ci.Common().IsInvoke() {
+					if _, isClosure := ci.Common().Value.(*ssa.MakeClosure); !isClosure {
+						callers[cal] = append(callers[cal], f)
+					}
+				}
+			}
+			for _, op := range in.Operands(nil) {
+				if op == nil || *op == nil {
+					continue
+				}
+				if fn, ok := (*op).(*ssa.Function); ok {
+					if ci, isCall := in.(ssa.CallInstruction); isCall && ci.Common().Value == ssa.Value(fn) {
+						continue
+					}
+					if _, isMC := in.(*ssa.MakeClosure); isMC {
+						continue
+					}
+					escaped[fn] = true
+				}
+			}
+		})
+	}
+	for changed := true; changed; {
+		changed = false
+		for _, f := range fns {
+			if priv[f] {
+				continue
+			}
+			if f.Parent() != nil && priv[f.Parent()] {
+				priv[f] = true
+				changed = true
+				continue
+			}
+			if escaped[f] || len(callers[f]) == 0 || f.Parent() != nil {
+				continue
+			}
+			all := true
+			for _, c := range callers[f] {
+				if !priv[c] {
+					all = false
+				}
+			}
+			if all {
+				priv[f] = true
+				changed = true
+			}
+		}
+	}
+	return priv
 }
 
 func isEventChanValue(v ssa.Value) bool { return isBinlogEventChan(v.Type()) }
@@ -389,21 +626,16 @@ func c05R5(a *A, r *Roles) {
 	}
 	// close reaches dc.Close() under sync.Once
 	once, closes := false, false
-	instrs(r.CloseConn, func(in ssa.Instruction) {
-		if c := callCommon(in); c != nil && staticCalleeIs(c, "(*sync.Once).Do") {
-			once = true
-			if mc, ok := c.Args[1].(*ssa.MakeClosure); ok {
-				instrs(mc.Fn.(*ssa.Function), func(i2 ssa.Instruction) {
-					if cc := callCommon(i2); cc != nil && isInvokeOf(cc, "Close") {
-						closes = true
-					}
-				})
+	bodies := onceBodies(w, r.CloseConn)
+	once = len(bodies) > 0
+	for f := range bodies {
+		a.touch(f)
+		instrs(f, func(i2 ssa.Instruction) {
+			if cc := callCommon(i2); cc != nil && isInvokeOf(cc, "Close") {
+				closes = true
 			}
-		}
-		if cc := callCommon(in); cc != nil && isInvokeOf(cc, "Close") {
-			closes = true
-		}
-	})
+		})
+	}
 	a.check(once && closes, rule, "release@close", w.pos(r.CloseConn.Pos()), "close() calls dc.Close() under sync.Once", "close() does not reach dc.Close() under a sync.Once")
 }
 
@@ -466,24 +698,33 @@ func c05R6(a *A, r *Roles) {
 	})
 	a.check(deferred, rule, "reader-ctx@Stream", w.posOf(der), "reader context derived in Stream, cancel deferred before the dump starts",
 		"the reader's context is derived in Stream but its cancel function is not deferred before the dump starts: Stream's return does not stop the reader")
-	// the goroutine's select uses the context it was given
-	var selCtx ssa.Value
-	instrs(r.Reader, func(in ssa.Instruction) {
-		if s, ok := in.(*ssa.Select); ok {
-			for _, st := range s.States {
-				if dc, ok := isDoneCall(st.Chan); ok {
-					selCtx = resolveFree(dc.Common().Value, r)
+	// the goroutine's selects (in the reader or the functions it calls) use the context it was given
+	reach := reachableIn(w.Root, r.Reader)
+	var selCtxs []ssa.Value
+	for f := range reach {
+		instrs(f, func(in ssa.Instruction) {
+			if s, ok := in.(*ssa.Select); ok {
+				for _, st := range s.States {
+					if dc, ok := isDoneCall(st.Chan); ok {
+						selCtxs = append(selCtxs, traceToStarter(dc.Common().Value, f, r, reach, 0))
+					}
 				}
 			}
-		}
-	})
+		})
+	}
 	var param ssa.Value
 	for _, p := range r.StartDump.Params {
 		if namedIs(p.Type(), "context", "Context") {
 			param = p
 		}
 	}
-	a.check(selCtx != nil && selCtx == param, rule, "reader-ctx@reader", w.pos(r.Reader.Pos()), "the reader selects on the context passed by Stream", "the reader's select watches a context other than the one Stream passes")
+	sameCtx := len(selCtxs) > 0
+	for _, c := range selCtxs {
+		if c == nil || c != param {
+			sameCtx = false
+		}
+	}
+	a.check(sameCtx, rule, "reader-ctx@reader", w.pos(r.Reader.Pos()), "the reader selects on the context passed by Stream", "the reader's select watches a context other than the one Stream passes")
 }
 
 // resolveFree: a load of a captured variable in the reader resolves to what the
@@ -607,26 +848,37 @@ func c05R7(a *A, r *Roles) {
 func c05R8(a *A, r *Roles) {
 	const rule = "C05-R8"
 	w := a.W
-	mc, ok := r.GoInstr.Call.Value.(*ssa.MakeClosure)
-	if !a.need(ok, rule, "closure started by the go statement") {
-		return
-	}
-	// captured cells: every store dominates the go statement
-	for i, b := range mc.Bindings {
-		name := r.Reader.FreeVars[i].Name()
-		al, isAlloc := b.(*ssa.Alloc)
-		if !isAlloc {
-			a.undecided(rule, "shared-cell@"+name, w.posOf(mc), "captured value is not a local variable cell")
-			continue
-		}
-		c := newCell(al)
-		ok := true
-		for _, s := range c.stores() {
-			if s.Fn != r.StartDump || !instrDominates(s.Store, r.GoInstr) {
-				ok = false
+	if mc, ok := r.GoInstr.Call.Value.(*ssa.MakeClosure); ok {
+		// captured cells: every store dominates the go statement
+		for i, b := range mc.Bindings {
+			name := r.Reader.FreeVars[i].Name()
+			al, isAlloc := b.(*ssa.Alloc)
+			if !isAlloc {
+				a.undecided(rule, "shared-cell@"+name, w.posOf(mc), "captured value is not a local variable cell")
+				continue
 			}
+			c := newCell(al)
+			ok := true
+			for _, s := range c.stores() {
+				if s.Fn != r.StartDump || !instrDominates(s.Store, r.GoInstr) {
+					ok = false
+				}
+			}
+			a.check(ok && len(c.otherUses()) == 0, rule, "shared-cell@"+name, w.posOf(al), "written only before the go statement", "a variable shared with the reader goroutine is written after (or concurrently with) its start")
 		}
-		a.check(ok && len(c.otherUses()) == 0, rule, "shared-cell@"+name, w.posOf(al), "written only before the go statement", "a variable shared with the reader goroutine is written after (or concurrently with) its start")
+	} else if a.need(r.GoInstr.Call.StaticCallee() != nil, rule, "function started by the go statement") {
+		// started as `go fn(args)`: the arguments are copied at the go statement, no variable cell is shared; an argument that
+		// is the address of a local would be one
+		for i, arg := range r.GoInstr.Call.Args {
+			_, isCell := strip(arg).(*ssa.Alloc)
+			isLocalCell := false
+			if isCell {
+				if al := strip(arg).(*ssa.Alloc); al.Parent() == r.StartDump && !typeIs(al.Type(), rootPath, "slaveConnection") {
+					isLocalCell = true
+				}
+			}
+			a.check(!isLocalCell, rule, fmt.Sprintf("shared-cell@arg#%d", i), w.posOf(r.GoInstr), "passed by value at the go statement", "the address of a local variable is handed to the reader goroutine")
+		}
 	}
 	// connection fields: stored only in the constructor, on the fresh object
 	for _, fld := range []*types.Var{r.ConnDC, r.ConnErrChan} {
@@ -672,6 +924,8 @@ func c05R8(a *A, r *Roles) {
 			if f := c.Common().StaticCallee(); f != nil && f.Pkg == w.Repl && len(c.Common().Args) == 1 {
 				if _, ok := c.Common().Args[0].(*ssa.MakeSlice); ok {
 					fresh = true
+				} else if rs := newAliasAn(w).roots(c.Common().Args[0]); len(rs) == 1 && rs["fresh"] {
+					fresh = true // allocated per call by an in-package helper
 				}
 			}
 		}
@@ -756,4 +1010,69 @@ func c05R9(a *A, r *Roles) {
 		})
 	}
 	a.atLeast(rule, "parser-wait", 1)
+}
+
+// traceToStarter follows v, a value used in function f of the reader's code, back to a value of the dump starter's frame:
+// through captured variables of the reader closure, through the arguments of a reader started as `go fn(args)`, and through
+// the parameters of helpers when every call site in the reader's code passes the same origin.
+func traceToStarter(v ssa.Value, f *ssa.Function, r *Roles, reach map[*ssa.Function]bool, depth int) ssa.Value {
+	v = strip(v)
+	if depth > 4 {
+		return nil
+	}
+	if u, ok := v.(*ssa.UnOp); ok && u.Op == token.MUL {
+		if _, isFV := u.X.(*ssa.FreeVar); isFV && f == r.Reader {
+			return resolveFree(v, r)
+		}
+	}
+	if fv, ok := v.(*ssa.FreeVar); ok && f == r.Reader {
+		if mc, ok := r.GoInstr.Call.Value.(*ssa.MakeClosure); ok {
+			for i, x := range r.Reader.FreeVars {
+				if x == fv && i < len(mc.Bindings) {
+					return strip(mc.Bindings[i])
+				}
+			}
+		}
+		return nil
+	}
+	p, ok := v.(*ssa.Parameter)
+	if !ok {
+		return v
+	}
+	idx := -1
+	for i, q := range f.Params {
+		if q == p {
+			idx = i
+		}
+	}
+	if idx < 0 {
+		return nil
+	}
+	if f == r.Reader {
+		if _, isClosure := r.GoInstr.Call.Value.(*ssa.MakeClosure); isClosure || idx >= len(r.GoInstr.Call.Args) {
+			return nil
+		}
+		return strip(r.GoInstr.Call.Args[idx])
+	}
+	var origin ssa.Value
+	sites := 0
+	for g := range reach {
+		instrs(g, func(in ssa.Instruction) {
+			ci, ok := in.(ssa.CallInstruction)
+			if !ok || ci.Common().IsInvoke() || ci.Common().StaticCallee() != f || idx >= len(ci.Common().Args) {
+				return
+			}
+			sites++
+			o := traceToStarter(ci.Common().Args[idx], g, r, reach, depth+1)
+			if sites == 1 {
+				origin = o
+			} else if o != origin {
+				origin = nil
+			}
+		})
+	}
+	if sites == 0 {
+		return nil
+	}
+	return origin
 }
